@@ -149,6 +149,31 @@ def run(ctx):
             ctx.count("family:" + fam)
             if any(p.n_sides % 2 for p in l.plaquettes): ctx.count("lattices_with_odd_plaquettes")
             if any(-1 in p.directions for p in l.plaquettes): ctx.count("lattices_with_backward_darts")
+    # ---- churn: lattices built, used once and dropped, so that object addresses are re-used (stale state keyed on identity, e.g. id(lattice), shows up
+    #      here and nowhere else: everything above keeps its lattices alive)
+    import gc
+    for t in range(60 if ctx.tier == "quick" else 600):
+        l = zoo.voronoi(rng, int(rng.integers(3, 16)))
+        name = f"churn#{t}(V={l.n_vertices})"
+        for _ in range(2):
+            u = 1 - 2 * rng.integers(0, 2, size=l.n_edges)
+            try:
+                fl = ff.fluxes_from_ujk(l, u)
+                flc = ff.fluxes_from_ujk(l, u, real=False)
+            except Exception as ex:
+                ctx.impl_violation(f"{name}: fluxes_from_ujk raised {type(ex).__name__}: {ex} on a freshly built lattice", dict(case=name, lattice=zoo.lat_to_json(l), u=u.tolist()))
+                break
+            if len(fl) != l.n_plaquettes or not oracle(ctx, name, l, u, fl):
+                if len(fl) != l.n_plaquettes:
+                    ctx.impl_violation(f"{name}: {len(fl)} fluxes for {l.n_plaquettes} plaquettes on a freshly built lattice", dict(case=name, lattice=zoo.lat_to_json(l), u=u.tolist()))
+                break
+            if any(abs(complex(x) - int(r) * (1j) ** int(p.n_sides)) > 1e-12 for x, r, p in zip(flc, fl, l.plaquettes)):
+                ctx.impl_violation(f"{name}: complex flux differs from real flux * i^sides on a freshly built lattice", dict(case=name, lattice=zoo.lat_to_json(l), u=u.tolist()))
+                break
+            ctx.case((name, tuple(u.tolist())), nontrivial=True)
+        ctx.count("churn_lattices")
+        del l
+        gc.collect()
     ctx.assumptions.append("numpy integer/complex products of ±1 and ±i are exact")
 
 
